@@ -1944,6 +1944,10 @@ def _first_rejected_leaf(d, val):
             mod = type(x).__module__.split('.')[0]
             if mod == 'numpy' and str(tt) in ('int64', 'float64'):
                 found.append('numpy-scalar-widened')      # impute unified np scalars of two widths; the wide type rejects the narrow
+            elif isinstance(x, (list, tuple, set, frozenset, dict)) or type(x).__name__ in ('frozenlist', 'frozendict'):
+                # a container sitting where the unified type has a scalar: an EMPTY container imputes to an element type of None,
+                # which super_unify_types drops instead of refusing (same leniency as the struct-union finding)
+                found.append('container-unified-away' if len(x) == 0 else f'{tt}<-{mod}.{type(x).__name__}')
             else:
                 found.append(f'{tt}<-{mod}.{type(x).__name__}')
             return False
